@@ -26,6 +26,9 @@ type termSpec struct {
 	// CloseAt (C13): "" | before-join | after-join | after-seen:<k> (k commands written) | after-respond | reset-after-join
 	CloseAt string `json:"close_at,omitempty"`
 	PreHB   int    `json:"pre_heartbeats,omitempty"` // extra heartbeats before the commands (moves the platform serial)
+	// SilentJoin: the terminal's first message is a 0x0001 (handled, joins, gets no reply), so the first
+	// platform frame on the connection - the first command - carries platform serial 0
+	SilentJoin bool `json:"silent_join,omitempty"`
 }
 
 type callSpec struct {
@@ -43,6 +46,7 @@ type cmdScn struct {
 	// *ActiveMessage object (command, body and timeout are overwritten between calls, as a caller may do)
 	SeqCalls   [][]callSpec `json:"sequential_calls,omitempty"`
 	FailWrites bool         `json:"fail_writes,omitempty"`
+	Bound      int          `json:"bound,omitempty"`      // deviation bound override for this scenario (0 = the tier\'s bound)
 	Disconnect bool         `json:"disconnect,omitempty"` // C13 oracle (callers may get any error)
 }
 
@@ -80,6 +84,21 @@ func (t *termState) setClosed() { t.closed = true }
 
 //go:norace
 func (t *termState) noise() { t.noiseSent++ }
+
+type joinEventWaiter struct {
+	w    *world
+	conn int
+}
+
+//go:norace
+func (j joinEventWaiter) Ready() bool {
+	for _, e := range j.w.ev {
+		if e.Kind == "join" && e.Conn == j.conn {
+			return true
+		}
+	}
+	return false
+}
 
 type joinedWaiter struct{ t *termState }
 
@@ -230,8 +249,22 @@ func (r *cmdRun) runTerminal(ts *termState) {
 	}
 	serial := uint16(100)
 	next := func() uint16 { serial++; return serial }
-	p.Send(hbFrame(sp.V2019, sp.Phone, next()))
+	if sp.CloseAt == "pipelined-then-reset" || sp.CloseAt == "pipelined-then-close" {
+		// several requests in flight, then the terminal disappears while their replies are pending
+		for i := 0; i <= sp.PreHB; i++ {
+			p.Send(hbFrame(sp.V2019, sp.Phone, next()))
+		}
+		closeNow(sp.CloseAt == "pipelined-then-reset")
+		return
+	}
 	nReplies := 1
+	if sp.SilentJoin {
+		p.Send(ref.Encode(ref.TermHeader(0x0001, sp.V2019, sp.Phone, next()), []byte{0x00, 0x00, 0x80, 0x01, 0x00}))
+		vs.Block(&vs.Op{Kind: "hwait-join-event", W: joinEventWaiter{r.w, p.C.Index}})
+		nReplies = 0
+	} else {
+		p.Send(hbFrame(sp.V2019, sp.Phone, next()))
+	}
 	for i := 0; i < sp.PreHB; i++ {
 		p.Send(hbFrame(sp.V2019, sp.Phone, next()))
 		nReplies++
@@ -515,6 +548,9 @@ func cmdCheck(res *vs.Result, user any) []vs.Violation {
 			}
 		}
 		want := 1 + ts.spec.PreHB + ts.noiseSent
+		if ts.spec.SilentJoin {
+			want--
+		}
 		if gen != want {
 			add("noise-replies", fmt.Sprintf("terminal %d sent %d heartbeat/location messages and got %d general responses", ti, want, gen))
 		}
@@ -586,6 +622,9 @@ func cmdReplay(raw json.RawMessage) string {
 }
 
 func exploreCmd(ctx *vc.Ctx, rep *vc.Report, scn cmdScn, bound int) {
+	if scn.Bound > 0 {
+		bound = scn.Bound
+	}
 	check := func(res *vs.Result, user any) []vs.Violation {
 		v := cmdCheck(res, user)
 		rep.Outcome("callers:" + callerOutcomes(user.(*cmdRun)))
